@@ -196,7 +196,7 @@ func genSmallCmd(out string, seed uint64, thorough bool) error {
 	}
 	defer os.RemoveAll(root)
 
-	nscripts := 200
+	nscripts := 150
 	if thorough {
 		nscripts = 300
 	}
@@ -350,7 +350,7 @@ func genSmallCmd(out string, seed uint64, thorough bool) error {
 			// between Truncate and sync inside cut; a tail grown past its preallocation)
 			li := len(b.files) - 1
 			ts := map[int]bool{endA: true, endB: true}
-			for _, dlt := range []int{1, 8, 9} {
+			for _, dlt := range []int{1, 8} {
 				ts[endA+dlt] = true
 				ts[endB-dlt] = true
 			}
